@@ -969,10 +969,12 @@ pub fn check_lattice(case: &LatticeCase, obs: &mut Obs) {
     let tol_f = tols_flash(&SolverOpt::default());
     let feed = b.x.clone();
     let mut nontrivial = false;
+    let mut solved: Vec<(f64, PhaseEquilibrium<Model, 2>)> = vec![];
     for th in THETAS {
         let p = pd + th * (pb - pd);
         match PhaseEquilibrium::tp_flash(&b.eos, b.t, Pressure::from_reduced(p), &(feed.clone() * MOL), None, SolverOptions::default(), None) {
             Ok(pe) => {
+                solved.push((th, pe.clone()));
                 let fm = (feed.clone() * MOL).to_reduced();
                 let (beta, kdev) = check_flash(obs, "flash default", &pe, b.t, p, &fm, &tol_f);
                 if beta > 0.02 && beta < 0.98 && kdev > 0.05 {
@@ -1013,6 +1015,24 @@ pub fn check_lattice(case: &LatticeCase, obs: &mut Obs) {
             }
         }
     }
+    // initial states from the other end of the envelope (same T and feed, other pressure): the guided flash
+    // must succeed wherever the unguided one does (the library restarts from the stability analysis when the
+    // attempt from the initial state does not end in a solution) and meet the same conditions
+    for (th_t, th_i) in [(0.9, 0.1), (0.1, 0.9)] {
+        let (Some(target), Some(init)) = (solved.iter().find(|s| s.0 == th_t), solved.iter().find(|s| s.0 == th_i)) else { continue };
+        let p = pd + target.0 * (pb - pd);
+        let fq = feed.clone() * MOL;
+        obs.class("flash with an initial state from the other end of the envelope");
+        match PhaseEquilibrium::tp_flash(&b.eos, b.t, Pressure::from_reduced(p), &fq, Some(&init.1), SolverOptions::default(), None) {
+            Ok(pe2) => {
+                check_flash(obs, "flash init other p", &pe2, b.t, p, &fq.to_reduced(), &tol_f);
+            }
+            Err(e) => obs.fail(format!(
+                "success clause: flash at theta={th_t} with the solution at theta={th_i} as initial state failed ({}) where the flash without initial state succeeds, for {here}",
+                err_name(&e)
+            )),
+        }
+    }
     if nontrivial {
         obs.nontrivial();
     }
@@ -1036,8 +1056,12 @@ pub struct PointsCase {
     pub t_init_rel: f64,
     /// 0 none, 1 perturbed phase compositions at (T,p), 2 bubble-point phases as initial state,
     /// 3 none, then the converged result as initial state of a second flash with another feed on the tie line,
-    /// 4 a flash result of the same feed and pressure solved at T (1 + init_dt)
+    /// 4 a flash result of the same feed and pressure solved at T (1 + init_dt),
+    /// 5 a flash result of the same feed and temperature solved at another pressure of the envelope (init_theta)
     pub flash_init: u8,
+    /// position in the envelope of the initial state of flash_init = 5
+    #[serde(default)]
+    pub init_theta: f64,
     /// relative temperature offset of the initial state of flash_init = 4 (+-1..4 %)
     #[serde(default)]
     pub init_dt: f64,
@@ -1103,6 +1127,23 @@ pub fn decode_points(g: &mut Gen) -> PointsCase {
         via_state: g.bool(0.3),
         n_feed: g.log_range(1e-2, 1e2),
         init_dt: g.range(0.01, 0.04) * if g.bool(0.5) { -1.0 } else { 1.0 },
+        init_theta: 0.0,
+    }
+    .with_cross_envelope_init(g)
+}
+
+impl PointsCase {
+    /// a quarter of the cases: the initial state of the flash is the flash result at another pressure of the
+    /// same envelope, preferably from the opposite end (genes appended at the end of the genome)
+    fn with_cross_envelope_init(mut self, g: &mut Gen) -> Self {
+        if g.bool(0.25) {
+            self.flash_init = 5;
+            self.init_theta = if g.bool(0.6) { (1.0 - self.theta).clamp(0.02, 0.98) } else { g.range(0.02, 0.98) };
+            if g.bool(0.7) {
+                self.flash = SolverOpt::default();
+            }
+        }
+        self
     }
 }
 
@@ -1218,6 +1259,11 @@ pub fn check_points(case: &PointsCase, obs: &mut Obs) {
                 let dt = if case.init_dt == 0.0 { 0.02 } else { case.init_dt };
                 PhaseEquilibrium::tp_flash(&b.eos, b.t * (1.0 + dt), pq, &feed_q, None, SolverOptions::default(), None).ok()
             }
+            5 => {
+                // a converged flash of the same feed and temperature at another pressure of the envelope
+                let p5 = Pressure::from_reduced(pd + case.init_theta * (pb - pd));
+                PhaseEquilibrium::tp_flash(&b.eos, b.t, p5, &feed_q, None, SolverOptions::default(), None).ok()
+            }
             _ => None,
         };
         if init.is_some() {
@@ -1229,6 +1275,22 @@ pub fn check_points(case: &PointsCase, obs: &mut Obs) {
             PhaseEquilibrium::tp_flash(&b.eos, b.t, pq, &feed_q, init.as_ref(), case.flash.to(), None)
         };
         class_result(obs, "flash", &r);
+        // With an initial state the library first iterates from it and, if that attempt does not end in a
+        // solution, starts again from the stability analysis exactly as the call without initial state does:
+        // a guided flash (default options) may therefore not fail where the unguided one succeeds.
+        if let (Some(_), Err(e), true) = (&init, &r, case.flash.is_default()) {
+            if let Ok(pe0) = PhaseEquilibrium::tp_flash(&b.eos, b.t, pq, &feed_q, None, SolverOptions::default(), None) {
+                let fm = feed_q.to_reduced();
+                let beta0 = pe0.vapor().total_moles.to_reduced() / fm.sum();
+                obs.fail(format!(
+                    "flash with initial state (kind {}) fails ({}) where the same flash without initial state returns a phase split (beta = {beta0:.4}); theta = {:.3}, init_theta = {:.3}",
+                    case.flash_init,
+                    err_name(e),
+                    case.theta,
+                    case.init_theta
+                ));
+            }
+        }
         if case.flash.max_iter.map(|m| m <= 5).unwrap_or(false) {
             class_result(obs, "flash with max_iter <= 5", &r);
         }
@@ -1688,7 +1750,7 @@ pub fn check_nearcrit(case: &NearCritCase, obs: &mut Obs) {
 // ---------------------------------------------------------------------------------------
 const PART_POINTS: PartCfg = PartCfg {
     name: "points",
-    genome_len: 64,
+    genome_len: 80,
     cases_quick: 6000,
     cases_thorough: 600_000,
     panic: PanicPolicy::Count,
